@@ -1209,7 +1209,17 @@ func init() {
 		// a frame this process did not produce may be rejected by the real decoder - before
 		// producing anything, or (like the real DecodeAll) after handing back the bytes decoded so
 		// far together with the error
-		switch i.choose(3, "zstd-corrupt") {
+		// (a decoder is deterministic: the same bytes get the same verdict every time on a path)
+		key := fmt.Sprint(payload)
+		verdict, seen := i.ps.zverdicts[key]
+		if !seen {
+			verdict = i.choose(3, "zstd-corrupt")
+			if i.ps.zverdicts == nil {
+				i.ps.zverdicts = map[string]int{}
+			}
+			i.ps.zverdicts[key] = verdict
+		}
+		switch verdict {
 		case 1:
 			return bad()
 		case 2:
